@@ -336,24 +336,43 @@ func (intr *treeInterpreter) fieldFromStruct(key string, value interface{}) (int
 	first, n := utf8.DecodeRuneInString(key)
 	fieldName := string(unicode.ToUpper(first)) + key[n:]
 	if rv.Kind() == reflect.Struct {
-		v := rv.FieldByName(fieldName)
-		if !v.IsValid() {
-			return nil, nil
-		}
-		return reflectedValue(v), nil
+		return structField(rv, fieldName), nil
 	} else if rv.Kind() == reflect.Ptr {
 		// Handle multiple levels of indirection?
 		if rv.IsNil() {
 			return nil, nil
 		}
 		rv = rv.Elem()
-		v := rv.FieldByName(fieldName)
-		if !v.IsValid() {
+		if rv.Kind() != reflect.Struct {
 			return nil, nil
 		}
-		return reflectedValue(v), nil
+		return structField(rv, fieldName), nil
 	}
 	return nil, nil
+}
+
+// structField returns the exported field (possibly promoted from an embedded
+// struct) called name, or nil if there is none, it is unexported, or it is
+// promoted through a nil embedded pointer.
+func structField(rv reflect.Value, name string) interface{} {
+	field, ok := rv.Type().FieldByName(name)
+	if !ok || field.PkgPath != "" {
+		return nil
+	}
+	v := rv
+	for _, i := range field.Index {
+		if v.Kind() == reflect.Ptr {
+			if v.IsNil() {
+				return nil
+			}
+			v = v.Elem()
+		}
+		v = v.Field(i)
+	}
+	if !v.CanInterface() {
+		return nil
+	}
+	return reflectedValue(v)
 }
 
 func (intr *treeInterpreter) flattenWithReflection(value interface{}) (interface{}, error) {
